@@ -16,6 +16,10 @@ EXPLANATION = (
     "every cell is compared with the statement of the property; (O3.3/O3.4) no subclass re-assigns the guard state set by "
     "the base constructor and each forwards its empty flag and length text unchanged; (O3.5) validate_characters visits "
     "every character. The per-type value hooks are C02's."
+    " Added in rounds 6 and 7: (O3.4) each type's empty value ('' for the text types, None for the converted ones)"
+    " after every constructor. (O3.8) an Excel cell holding 0 or FALSE reaches the guards as the text 0, not as an"
+    " empty cell (C16's table). A fixed cell of blanks and other white space is a non-empty cell: it is guarded"
+    " and handed to the type without its surrounding blanks only."
 )
 ASSUMPTIONS = [
     "Range.validate decides membership correctly (C01)",
